@@ -31,6 +31,6 @@ Xor16(a, b) == XorN(a, b, 16)
 \* even parity of a byte: 1 when the number of set bits is even
 Parity(b) == 1 - ((Bit(b,0) + Bit(b,1) + Bit(b,2) + Bit(b,3) + Bit(b,4) + Bit(b,5) + Bit(b,6) + Bit(b,7)) % 2)
 
-Min(a, b) == IF a < b THEN a ELSE b
-Max(a, b) == IF a > b THEN a ELSE b
+Lesser(a, b) == IF a < b THEN a ELSE b
+Greater(a, b) == IF a > b THEN a ELSE b
 =============================================================================
